@@ -16,6 +16,7 @@ element is pruned.
 from __future__ import annotations
 
 import ast
+import copy
 import itertools
 from dataclasses import dataclass, field
 from typing import Any
@@ -28,6 +29,53 @@ ENUMS = ("get_child_nodes_with_field", "get_child_nodes", "children")
 
 
 # ----------------------------------------------------------------------------- specialisation on mode flags
+def _fold_mode(stmts: list[ast.stmt], assign: dict[str, Any]) -> list[ast.stmt]:
+    """Conditional *expressions* decided by the mode flags alone are replaced by the arm taken, and a local bound once to an integer
+    constant (`step = 1 if bottom_up else -1`, after folding) is substituted into slice steps (`infos[::step]`)."""
+    class F(ast.NodeTransformer):
+        def visit_IfExp(self, n: ast.IfExp) -> ast.AST:
+            self.generic_visit(n)
+            try:
+                v = Evaluator(assign).ev(n.test)
+            except NeedAtom:
+                return n
+            except Exception:
+                return n
+            return n.body if v else n.orelse
+
+        def visit_FunctionDef(self, n: ast.FunctionDef) -> ast.AST:
+            return n
+    out = [F().visit(copy.deepcopy(st)) for st in stmts]
+    binds: dict[str, list[ast.expr]] = {}
+    for st in out:
+        for x in ast.walk(st):
+            if isinstance(x, ast.Assign) and len(x.targets) == 1 and isinstance(x.targets[0], ast.Name):
+                binds.setdefault(x.targets[0].id, []).append(x.value)
+            elif isinstance(x, (ast.AugAssign, ast.AnnAssign)) and isinstance(x.target, ast.Name):
+                binds.setdefault(x.target.id, []).append(x.value if isinstance(x, ast.AnnAssign) and x.value is not None else ast.Name(id="?", ctx=ast.Load()))
+            elif isinstance(x, (ast.For, ast.comprehension)):
+                for t in ast.walk(x.target):
+                    if isinstance(t, ast.Name):
+                        binds.setdefault(t.id, []).append(ast.Name(id="?", ctx=ast.Load()))
+
+    def const_int(e: ast.expr) -> int | None:
+        if isinstance(e, ast.Constant) and isinstance(e.value, int) and not isinstance(e.value, bool):
+            return e.value
+        if isinstance(e, ast.UnaryOp) and isinstance(e.op, ast.USub) and isinstance(e.operand, ast.Constant) and isinstance(e.operand.value, int):
+            return -e.operand.value
+        return None
+    consts = {k: const_int(v[0]) for k, v in binds.items() if len(v) == 1 and const_int(v[0]) is not None}
+
+    class S(ast.NodeTransformer):
+        def visit_Slice(self, n: ast.Slice) -> ast.AST:
+            self.generic_visit(n)
+            if isinstance(n.step, ast.Name) and n.step.id in consts:
+                c = consts[n.step.id]
+                n.step = ast.copy_location(ast.Constant(value=c) if c >= 0 else ast.UnaryOp(op=ast.USub(), operand=ast.Constant(value=-c)), n.step)
+            return n
+    return [ast.fix_missing_locations(S().visit(st)) for st in out]
+
+
 def specialise(stmts: list[ast.stmt], assign: dict[str, Any]) -> list[ast.stmt]:
     """Resolve every ``if`` whose test is decided by the mode flags alone."""
     out: list[ast.stmt] = []
@@ -97,6 +145,8 @@ def eval_seq(e: ast.expr, env: dict[str, Seq]) -> Seq | None:
             s = eval_seq(e.value, env)
             if s is not None:
                 return Seq(s.call, s.owner, s.method, not s.reversed, s.record, s.targets)
+        if sl.lower is None and sl.upper is None and (sl.step is None or norm(sl.step) == "1"):
+            return eval_seq(e.value, env)  # a plain copy
     if isinstance(e, (ast.GeneratorExp, ast.ListComp)) and len(e.generators) == 1 and not e.generators[0].ifs:
         g = e.generators[0]
         s = eval_seq(g.iter, env)
@@ -235,10 +285,97 @@ def _level_lists_to_queue(body: list[ast.stmt]) -> list[ast.stmt]:
     return out
 
 
+def _iadd_to_extend(body: list[ast.stmt]) -> list[ast.stmt]:
+    """``W += E`` for a local that is also popped from (hence a list / deque: in-place concatenation) is ``W.extend(E)``."""
+    popped = {n.func.value.id for st in body for n in ast.walk(st) if isinstance(n, ast.Call) and isinstance(n.func, ast.Attribute) and n.func.attr in ("pop", "popleft")
+              and isinstance(n.func.value, ast.Name)}
+
+    class T(ast.NodeTransformer):
+        def visit_AugAssign(self, n: ast.AugAssign) -> ast.AST:
+            if isinstance(n.op, ast.Add) and isinstance(n.target, ast.Name) and n.target.id in popped:
+                call = ast.Call(func=ast.Attribute(value=ast.Name(id=n.target.id, ctx=ast.Load()), attr="extend", ctx=ast.Load()), args=[n.value], keywords=[])
+                return ast.fix_missing_locations(ast.copy_location(ast.Expr(value=call), n))
+            return n
+
+        def visit_FunctionDef(self, n: ast.FunctionDef) -> ast.AST:
+            return n
+    return [T().visit(copy.deepcopy(st)) for st in body]
+
+
+def _copy_propagate(stmts: list[ast.stmt]) -> list[ast.stmt]:
+    """Forward copy propagation of cursor variables: after ``p = <name or attribute chain>`` the loads of ``p`` are that expression until
+    ``p`` or a name the expression mentions is re-bound (flow-sensitive within blocks; what a loop body binds is unknown at the loop's entry)."""
+    def pure_chain(e: ast.expr) -> bool:
+        while isinstance(e, ast.Attribute):
+            e = e.value
+        return isinstance(e, ast.Name)
+
+    def stored_in(st: ast.AST) -> set[str]:
+        return {n.id for n in ast.walk(st) if isinstance(n, ast.Name) and isinstance(n.ctx, (ast.Store, ast.Del))}
+
+    def kill(env: dict[str, ast.expr], names: set[str]) -> None:
+        for k in list(env):
+            if k in names or any(isinstance(x, ast.Name) and x.id in names for x in ast.walk(env[k])):
+                del env[k]
+
+    class Sub(ast.NodeTransformer):
+        def __init__(self, env: dict[str, ast.expr]) -> None:
+            self.env = env
+
+        def visit_Name(self, n: ast.Name) -> ast.AST:
+            if isinstance(n.ctx, ast.Load) and n.id in self.env:
+                return ast.copy_location(copy.deepcopy(self.env[n.id]), n)
+            return n
+
+        def visit_FunctionDef(self, n: ast.FunctionDef) -> ast.AST:
+            return n
+
+        def visit_Lambda(self, n: ast.Lambda) -> ast.AST:
+            return n
+
+    def block(b: list[ast.stmt], env: dict[str, ast.expr]) -> list[ast.stmt]:
+        out: list[ast.stmt] = []
+        for st in b:
+            if isinstance(st, (ast.FunctionDef, ast.ClassDef)):
+                out.append(st)
+                continue
+            if isinstance(st, (ast.For, ast.While)):
+                kill(env, stored_in(st))
+                new = copy.copy(st)
+                if isinstance(st, ast.For):
+                    new.iter = Sub(env).visit(copy.deepcopy(st.iter))
+                else:
+                    new.test = Sub(env).visit(copy.deepcopy(st.test))
+                new.body = block(st.body, dict(env))
+                new.orelse = block(st.orelse, dict(env))
+                out.append(new)
+                continue
+            if isinstance(st, ast.If):
+                new = copy.copy(st)
+                new.test = Sub(env).visit(copy.deepcopy(st.test))
+                new.body = block(st.body, dict(env))
+                new.orelse = block(st.orelse, dict(env))
+                kill(env, stored_in(st))
+                out.append(new)
+                continue
+            if isinstance(st, (ast.Try, ast.With, ast.Match)):
+                kill(env, stored_in(st))
+                out.append(st)
+                continue
+            new = Sub(env).visit(copy.deepcopy(st))
+            kill(env, stored_in(st))
+            tgt = st.targets[0] if isinstance(st, ast.Assign) and len(st.targets) == 1 else (st.target if isinstance(st, ast.AnnAssign) and st.value is not None else None)
+            if isinstance(tgt, ast.Name) and pure_chain(new.value) and not any(isinstance(x, ast.Name) and x.id == tgt.id for x in ast.walk(new.value)):  # type: ignore[union-attr]
+                env[tgt.id] = new.value  # type: ignore[union-attr]
+            out.append(new)
+        return out
+    return [ast.fix_missing_locations(x) for x in block(stmts, {})]
+
+
 def build_model(func: Func, mode: dict[str, Any]) -> Model:
     fn = func.node
     body = specialise([s for s in fn.body if not (isinstance(s, ast.Expr) and isinstance(s.value, ast.Constant))], mode)
-    body = _level_lists_to_queue(_positional_records(body))
+    body = _level_lists_to_queue(_positional_records(_iadd_to_extend(_copy_propagate(_fold_mode(body, mode)))))
     m = Model(func, mode)
     loops = [s for s in body if isinstance(s, ast.While)]
     main = None
@@ -402,7 +539,38 @@ def build_model(func: Func, mode: dict[str, Any]) -> Model:
         m.emit_container, m.emit_side = info.split(":")
         # drain loop in the epilogue
         drained = False
+        flipped = False
+
+        def drain_expr(e: ast.expr) -> str | None:
+            """'L' when e enumerates the buffer front to back, 'R' when back to front."""
+            side = None
+            while isinstance(e, ast.Call) and dotted(e.func) in ("list", "tuple", "iter") and len(e.args) == 1:
+                e = e.args[0]
+            if dotted(e) == m.emit_container:
+                side = "L"
+            elif isinstance(e, ast.Call) and dotted(e.func) == "reversed" and len(e.args) == 1 and dotted(e.args[0]) == m.emit_container:
+                side = "R"
+            elif isinstance(e, ast.Subscript) and isinstance(e.slice, ast.Slice) and e.slice.lower is None and e.slice.upper is None and e.slice.step is not None \
+                    and norm(e.slice.step) == "-1" and dotted(e.value) == m.emit_container:
+                side = "R"
+            if side is not None and flipped:
+                side = "R" if side == "L" else "L"
+            return side
         for st in epilogue:
+            if isinstance(st, ast.Expr) and isinstance(st.value, ast.Call) and isinstance(st.value.func, ast.Attribute) and st.value.func.attr == "reverse" \
+                    and dotted(st.value.func.value) == m.emit_container and not st.value.args:
+                flipped = not flipped
+                continue
+            if isinstance(st, ast.For) and drain_expr(st.iter) is not None and dotted(st.iter) != m.emit_container:
+                ys = [n for n in walk_body(st.body) if isinstance(n, ast.Yield)]
+                if len(ys) == 1 and ys[0].value is not None and norm(ys[0].value) == norm(st.target) and len(st.body) == 1:
+                    m.drain_side = drain_expr(st.iter) or ""
+                    drained = True
+                continue
+            if isinstance(st, ast.Expr) and isinstance(st.value, ast.YieldFrom) and drain_expr(st.value.value) is not None and dotted(st.value.value) != m.emit_container:
+                m.drain_side = drain_expr(st.value.value) or ""
+                drained = True
+                continue
             if isinstance(st, ast.While) and _loop_container(st) == m.emit_container:
                 ys = [n for n in walk_body(st.body) if isinstance(n, ast.Yield)]
                 if len(ys) == 1 and isinstance(ys[0].value, ast.Call) and isinstance(ys[0].value.func, ast.Attribute) \
@@ -412,14 +580,16 @@ def build_model(func: Func, mode: dict[str, Any]) -> Model:
                         m.drain_side = "L" if is_const(c.args[0], 0) else ""
                     else:
                         m.drain_side = TAKE_METHODS[c.func.attr]
+                    if flipped and m.drain_side:
+                        m.drain_side = "R" if m.drain_side == "L" else "L"
                     drained = True
             elif isinstance(st, ast.For) and dotted(st.iter) == m.emit_container:
                 ys = [n for n in walk_body(st.body) if isinstance(n, ast.Yield)]
                 if len(ys) == 1 and ys[0].value is not None and norm(ys[0].value) == norm(st.target):
-                    m.drain_side = "L"
+                    m.drain_side = "R" if flipped else "L"
                     drained = True
             elif isinstance(st, ast.Expr) and isinstance(st.value, ast.YieldFrom) and dotted(st.value.value) == m.emit_container:
-                m.drain_side = "L"
+                m.drain_side = "R" if flipped else "L"
                 drained = True
         if not drained or not m.drain_side:
             raise Unsupported("no drain loop for the output buffer", fn)
